@@ -148,3 +148,369 @@ Proof.
     + apply (rows_other d d0 t E NE) in Q. subst t'. rewrite SL. reflexivity.
     + apply IH. destruct Hin as [->|H]; [|exact H]. rewrite delim_eqb_refl in E. discriminate.
 Qed.
+
+(* ================================================================== the decision never changes WHAT is read *)
+
+Lemma blank_is_sep tk t : is_blank tk = true -> nums_of (tk :: t) = nums_of t.
+Proof. destruct tk as [z|d]; [discriminate|]. reflexivity. Qed.
+
+Lemma drop_front_nums l : nums_of (drop_front l) = nums_of l.
+Proof.
+  induction l as [|tk l IH]; [reflexivity|]. cbn [drop_front].
+  destruct (is_blank tk) eqn:E; [|reflexivity]. rewrite IH. symmetry. apply blank_is_sep. exact E.
+Qed.
+
+Lemma drop_back_nums l : nums_of (drop_back l) = nums_of l.
+Proof.
+  induction l as [|tk l IH]; [reflexivity|]. cbn [drop_back].
+  destruct (drop_back l) as [|a b] eqn:E.
+  - simpl in IH. destruct (is_blank tk) eqn:B.
+    + rewrite blank_is_sep by exact B. exact IH.
+    + destruct tk; simpl; rewrite <- IH; reflexivity.
+  - destruct tk; simpl; simpl in IH; rewrite IH; reflexivity.
+Qed.
+
+Lemma parse_field_nums f z : parse_field f = Some z -> nums_of f = [z].
+Proof.
+  unfold parse_field. intros H. rewrite <- drop_back_nums, <- drop_front_nums.
+  destruct (drop_front (drop_back f)) as [|[z'|d'] [|b c]]; try discriminate.
+  injection H as <-. reflexivity.
+Qed.
+
+Lemma split_nonempty d l : split d l <> [].
+Proof.
+  induction l as [|tk l IH]; [discriminate|]. cbn [split].
+  destruct (match tk with Sep d' => delim_eqb d d' | Num _ => false end); [discriminate|].
+  destruct (split d l); [contradiction|discriminate].
+Qed.
+
+Lemma split_nums d l : concat (map nums_of (split d l)) = nums_of l.
+Proof.
+  induction l as [|tk l IH]; [reflexivity|]. cbn [split].
+  destruct tk as [z|d'].
+  - destruct (split d l) as [|f r] eqn:E; [exfalso; eapply split_nonempty; exact E|].
+    cbn [map concat nums_of] in *. rewrite <- IH. reflexivity.
+  - destruct (delim_eqb d d').
+    + cbn [map concat nums_of app]. exact IH.
+    + destruct (split d l) as [|f r] eqn:E; [exfalso; eapply split_nonempty; exact E|].
+      cbn [map concat nums_of] in *. exact IH.
+Qed.
+
+Lemma all_some_fields_nums fs : forall row,
+  all_some (map parse_field fs) = Some row -> row = concat (map nums_of fs).
+Proof.
+  induction fs as [|f fs IH]; intros row; cbn [map all_some concat].
+  - intros [= <-]. reflexivity.
+  - destruct (parse_field f) as [z|] eqn:P; [|discriminate].
+    destruct (all_some (map parse_field fs)) as [r|] eqn:A; [|discriminate].
+    intros [= <-]. rewrite (parse_field_nums _ _ P), (IH r eq_refl). reflexivity.
+Qed.
+
+(* a line that parses under ANY separator parses to its numbers *)
+Theorem parse_line_nums d l row : parse_line d l = Some row -> row = nums_of l.
+Proof. unfold parse_line. intros H. rewrite (all_some_fields_nums _ _ H). apply split_nums. Qed.
+
+Lemma all_some_lines_nums d ls : forall t,
+  all_some (map (parse_line d) ls) = Some t -> t = map nums_of ls.
+Proof.
+  induction ls as [|l ls IH]; intros t; cbn [map all_some].
+  - intros [= <-]. reflexivity.
+  - destruct (parse_line d l) as [row|] eqn:P; [|discriminate].
+    destruct (all_some (map (parse_line d) ls)) as [r|] eqn:A; [|discriminate].
+    intros [= <-]. rewrite (parse_line_nums _ _ _ P), (IH r eq_refl). reflexivity.
+Qed.
+
+Theorem try_parse_numbers d ls t : try_parse d ls = Some t -> t = numbers_of ls.
+Proof.
+  unfold try_parse, numbers_of.
+  destruct (all_some (map (parse_line d) (filter (fun l => negb (blank_line l)) ls))) as [t'|] eqn:A; [|discriminate].
+  destruct (same_lengths t'); [|discriminate]. intros [= <-]. eapply all_some_lines_nums. exact A.
+Qed.
+
+Theorem detect_numbers order ls t : detect order ls = Some t -> t = numbers_of ls.
+Proof.
+  induction order as [|d rest IH]; cbn [detect]; [discriminate|].
+  destruct (try_parse d ls) as [t'|] eqn:T.
+  - intros [= <-]. eapply try_parse_numbers. exact T.
+  - exact IH.
+Qed.
+
+(* priority: the first separator of the list under which the text parses decides *)
+Theorem detect_winner order ls :
+  detect order ls = match winner order ls with Some d => try_parse d ls | None => None end.
+Proof.
+  unfold winner. induction order as [|d rest IH]; cbn [detect find]; [reflexivity|].
+  unfold accepted at 1. destruct (try_parse d ls) as [t|] eqn:T; [rewrite T; reflexivity|]. exact IH.
+Qed.
+
+Lemma detect_none_iff order ls : detect order ls = None <-> forall d, In d order -> try_parse d ls = None.
+Proof.
+  induction order as [|d rest IH]; cbn [detect].
+  - split; [intros _ d []|reflexivity].
+  - destruct (try_parse d ls) as [t|] eqn:T.
+    + split; [discriminate|]. intros H. specialize (H d (or_introl eq_refl)). congruence.
+    + rewrite IH. split.
+      * intros H d' [<-|Hin]; [exact T|apply H; exact Hin].
+      * intros H d' Hin. apply H. right. exact Hin.
+Qed.
+
+(* the result depends on the SET of separators tried only: the order in which they are tried is irrelevant *)
+Theorem detect_order_irrelevant o1 o2 ls :
+  (forall d, In d o1 <-> In d o2) -> detect o1 ls = detect o2 ls.
+Proof.
+  intros S. destruct (detect o1 ls) as [t1|] eqn:D1; destruct (detect o2 ls) as [t2|] eqn:D2.
+  - rewrite (detect_numbers _ _ _ D1), (detect_numbers _ _ _ D2). reflexivity.
+  - exfalso. rewrite detect_none_iff in D2.
+    assert (N1 : detect o1 ls = None) by (apply detect_none_iff; intros d H; apply D2, S, H). congruence.
+  - exfalso. rewrite detect_none_iff in D1.
+    assert (N2 : detect o2 ls = None) by (apply detect_none_iff; intros d H; apply D1, S, H). congruence.
+  - reflexivity.
+Qed.
+
+(* ================================================================== which lines a separator accepts *)
+
+Definition tok_ok (tk : tok) : bool := match tk with Num _ => true | Sep _ => is_blank tk end.
+
+Lemma drop_front_ok l : forallb tok_ok (drop_front l) = true -> forallb tok_ok l = true.
+Proof.
+  induction l as [|tk l IH]; [reflexivity|]. cbn [drop_front].
+  destruct (is_blank tk) eqn:B; [|tauto]. intros H. cbn [forallb]. rewrite (IH H).
+  destruct tk; [reflexivity|]. simpl. simpl in B. rewrite B. reflexivity.
+Qed.
+
+Lemma drop_back_ok l : forallb tok_ok (drop_back l) = true -> forallb tok_ok l = true.
+Proof.
+  induction l as [|tk l IH]; [reflexivity|]. cbn [drop_back].
+  destruct (drop_back l) as [|a b] eqn:E.
+  - intros H. cbn [forallb]. rewrite (IH eq_refl). destruct (is_blank tk) eqn:B.
+    + destruct tk; [reflexivity|]. simpl. simpl in B. rewrite B. reflexivity.
+    + cbn [forallb] in H. exact H.
+  - cbn [forallb]. intros H. apply andb_prop in H. destruct H as [H1 H2]. rewrite H1. apply IH. exact H2.
+Qed.
+
+Lemma parse_field_ok f z : parse_field f = Some z -> forallb tok_ok f = true.
+Proof.
+  unfold parse_field. intros H. apply drop_back_ok, drop_front_ok.
+  destruct (drop_front (drop_back f)) as [|[z'|d'] [|b c]]; try discriminate. reflexivity.
+Qed.
+
+Lemma split_length d l : length (split d l) = S (count_sep d l).
+Proof.
+  induction l as [|tk l IH]; [reflexivity|]. cbn [split count_sep]. destruct tk as [z|d'].
+  - destruct (split d l) as [|f r] eqn:E; [exfalso; eapply split_nonempty; exact E|]. exact IH.
+  - destruct (delim_eqb d d').
+    + cbn [length]. rewrite IH. reflexivity.
+    + destruct (split d l) as [|f r] eqn:E; [exfalso; eapply split_nonempty; exact E|]. exact IH.
+Qed.
+
+Lemma all_some_length {A} (l : list (option A)) r : all_some l = Some r -> length r = length l.
+Proof.
+  revert r. induction l as [|[x|] l IH]; intros r; cbn [all_some]; try discriminate.
+  - intros [= <-]. reflexivity.
+  - destruct (all_some l) as [r'|]; [|discriminate]. intros [= <-]. cbn [length]. rewrite (IH r' eq_refl). reflexivity.
+Qed.
+
+Lemma all_some_fields_ok fs row :
+  all_some (map parse_field fs) = Some row -> forallb (forallb tok_ok) fs = true.
+Proof.
+  revert row. induction fs as [|f fs IH]; intros row; cbn [map all_some forallb]; [reflexivity|].
+  destruct (parse_field f) as [z|] eqn:P; [|discriminate].
+  destruct (all_some (map parse_field fs)) as [r|] eqn:A; [|discriminate]. intros _.
+  rewrite (parse_field_ok _ _ P), (IH r eq_refl). reflexivity.
+Qed.
+
+Lemma split_fields_ok d l : forallb (forallb tok_ok) (split d l) = true -> others_blank d l = true.
+Proof.
+  unfold others_blank. induction l as [|tk l IH]; [reflexivity|]. cbn [split]. destruct tk as [z|d'].
+  - destruct (split d l) as [|f r] eqn:E; [exfalso; eapply split_nonempty; exact E|].
+    intros H. cbn [forallb] in H. apply andb_prop in H. destruct H as [H1 H2].
+    cbn [tok_ok andb] in H1. cbn [forallb andb]. apply IH. cbn [forallb]. rewrite H1, H2. reflexivity.
+  - destruct (delim_eqb d d') eqn:C.
+    + intros H. cbn [forallb] in H. cbn [forallb]. rewrite C. cbn [orb andb]. apply IH. exact H.
+    + destruct (split d l) as [|f r] eqn:E; [exfalso; eapply split_nonempty; exact E|].
+      intros H. cbn [forallb] in H. apply andb_prop in H. destruct H as [H1 H2].
+      apply andb_prop in H1. destruct H1 as [H0 H1]. cbn [tok_ok] in H0.
+      cbn [forallb]. rewrite C, H0. cbn [orb andb]. apply IH. cbn [forallb]. rewrite H1, H2. reflexivity.
+Qed.
+
+(* NECESSARY for a separator d to accept a line: d occurs exactly (columns - 1) times and every other separator
+   character of the line is a blank *)
+Theorem parse_line_needs d l row :
+  parse_line d l = Some row -> S (count_sep d l) = length row /\ others_blank d l = true.
+Proof.
+  unfold parse_line. intros H. split.
+  - rewrite (all_some_length _ _ H), map_length, split_length. reflexivity.
+  - apply split_fields_ok. eapply all_some_fields_ok. exact H.
+Qed.
+
+(* ---- SUFFICIENT for regular lines: the same gap between every two neighbours *)
+
+Lemma split_app_nocut d p l :
+  forallb (fun tk => negb (cuts d tk)) p = true ->
+  split d (p ++ l) = match split d l with f :: r => (p ++ f) :: r | [] => [p] end.
+Proof.
+  induction p as [|tk p IH]; intros H.
+  - simpl. destruct (split d l) eqn:E; [exfalso; eapply split_nonempty; exact E|reflexivity].
+  - cbn [forallb] in H. apply andb_prop in H. destruct H as [H1 H2]. apply negb_true_iff in H1.
+    cbn [app split]. fold (cuts d tk). rewrite H1, (IH H2).
+    destruct (split d l) eqn:E; [exfalso; eapply split_nonempty; exact E|reflexivity].
+Qed.
+
+Lemma split_cut d l : split d (Sep d :: l) = [] :: split d l.
+Proof. cbn [split]. rewrite delim_eqb_refl. reflexivity. Qed.
+
+Lemma drop_back_app_num p z q : forallb is_blank q = true -> drop_back (p ++ Num z :: q) = p ++ [Num z].
+Proof.
+  intros Q. assert (B : drop_back q = []).
+  { induction q as [|tk q IH]; [reflexivity|]. cbn [forallb] in Q. apply andb_prop in Q. destruct Q as [Q1 Q2].
+    cbn [drop_back]. rewrite (IH Q2), Q1. reflexivity. }
+  induction p as [|tk p IH].
+  - cbn [app drop_back]. rewrite B. reflexivity.
+  - cbn [app drop_back]. rewrite IH. destruct (p ++ [Num z]) eqn:E; [destruct p; discriminate|reflexivity].
+Qed.
+
+Lemma drop_front_app_num p z : forallb is_blank p = true -> drop_front (p ++ [Num z]) = [Num z].
+Proof.
+  induction p as [|tk p IH]; intros P; [reflexivity|]. cbn [forallb] in P. apply andb_prop in P.
+  destruct P as [P1 P2]. cbn [app drop_front]. rewrite P1. apply IH. exact P2.
+Qed.
+
+Lemma parse_field_padded p z q :
+  forallb is_blank p = true -> forallb is_blank q = true -> parse_field (p ++ Num z :: q) = Some z.
+Proof. intros P Q. unfold parse_field. rewrite (drop_back_app_num p z q Q), (drop_front_app_num p z P). reflexivity. Qed.
+
+(* a gap that d reads: blanks, d once, blanks (none of the blanks being d itself) *)
+Definition gap_split (d : delim) (g b1 b2 : list tok) : Prop :=
+  g = b1 ++ Sep d :: b2 /\ forallb is_blank b1 = true /\ forallb is_blank b2 = true /\
+  forallb (fun tk => negb (cuts d tk)) b1 = true /\ forallb (fun tk => negb (cuts d tk)) b2 = true.
+
+Lemma count0_blank d g :
+  count_sep d (map Sep g) = 0%nat -> others_blank d (map Sep g) = true -> forallb is_blank (map Sep g) = true.
+Proof.
+  unfold others_blank. induction g as [|a g IH]; [reflexivity|]. cbn [map count_sep forallb].
+  destruct (delim_eqb d a) eqn:E; [discriminate|]. cbn [orb plus]. intros Z0 O.
+  apply andb_prop in O. destruct O as [A B]. rewrite A. apply IH; assumption.
+Qed.
+
+Lemma count0_nocut d g :
+  count_sep d (map Sep g) = 0%nat -> forallb (fun tk => negb (cuts d tk)) (map Sep g) = true.
+Proof.
+  induction g as [|a g IH]; [reflexivity|]. cbn [map count_sep forallb cuts].
+  destruct (delim_eqb d a) eqn:E; [discriminate|]. cbn [negb andb plus]. exact IH.
+Qed.
+
+Lemma gap_ok_split d g : gap_ok d g = true -> exists b1 b2, gap_split d (map Sep g) b1 b2.
+Proof.
+  unfold gap_ok, gap_split. intros H. apply andb_prop in H. destruct H as [C O]. apply Nat.eqb_eq in C.
+  induction g as [|d' g IH]; [discriminate|].
+  unfold others_blank in O. cbn [map count_sep forallb] in C, O.
+  apply andb_prop in O. destruct O as [O1 O2]. destruct (delim_eqb d d') eqn:E.
+  - apply delim_eqb_eq in E. subst d'. exists [], (map Sep g).
+    assert (Z0 : count_sep d (map Sep g) = 0%nat) by lia.
+    repeat split; try reflexivity.
+    + apply (count0_blank d g Z0 O2).
+    + apply (count0_nocut d g Z0).
+  - cbn [orb] in O1. cbn [plus] in C. destruct (IH C O2) as [b1 [b2 [G [B1 [B2 [N1 N2]]]]]].
+    exists (Sep d' :: b1), b2. repeat split.
+    + cbn [map]. rewrite G. reflexivity.
+    + cbn [forallb]. rewrite O1. exact B1.
+    + exact B2.
+    + cbn [forallb cuts]. rewrite E. exact N1.
+    + exact N2.
+Qed.
+
+Lemma parse_gap_row d g b1 b2 : gap_split d g b1 b2 -> forall r y p,
+  forallb is_blank p = true -> forallb (fun tk => negb (cuts d tk)) p = true ->
+  all_some (map parse_field (split d (p ++ Num y :: flat_map (fun z => g ++ [Num z]) r))) = Some (y :: r).
+Proof.
+  intros [G [B1 [B2 [N1 N2]]]]. induction r as [|z r IH]; intros y p P NP.
+  - cbn [flat_map]. rewrite split_nocut.
+    + cbn [map all_some]. rewrite (parse_field_padded p y [] P eq_refl). reflexivity.
+    + rewrite forallb_app. rewrite NP. reflexivity.
+  - cbn [flat_map]. rewrite G.
+    replace (p ++ Num y :: ((b1 ++ Sep d :: b2) ++ [Num z]) ++ flat_map (fun z0 => (b1 ++ Sep d :: b2) ++ [Num z0]) r)
+      with ((p ++ Num y :: b1) ++ Sep d :: (b2 ++ Num z :: flat_map (fun z0 => (b1 ++ Sep d :: b2) ++ [Num z0]) r)).
+    2:{ rewrite <- ?app_assoc. cbn [app]. rewrite <- ?app_assoc. reflexivity. }
+    rewrite split_app_nocut.
+    2:{ rewrite forallb_app. rewrite NP. cbn [forallb cuts negb andb]. exact N1. }
+    rewrite split_cut. cbn [app map all_some].
+    rewrite app_nil_r, (parse_field_padded p y b1 P B1).
+    rewrite <- G. rewrite (IH z b2 B2 N2). reflexivity.
+Qed.
+
+Lemma nums_gap_row g row : nums_of (render_gap_row g row) = row.
+Proof.
+  destruct row as [|x r]; [reflexivity|]. cbn [render_gap_row nums_of]. f_equal.
+  induction r as [|y r IH]; [reflexivity|]. cbn [flat_map].
+  assert (S0 : forall l t, nums_of (map Sep l ++ t) = nums_of t) by (induction l; intros; simpl; auto).
+  rewrite <- app_assoc, S0. cbn [app nums_of]. rewrite IH. reflexivity.
+Qed.
+
+Theorem parse_gap_line d g x r :
+  gap_ok d g = true -> parse_line d (render_gap_row g (x :: r)) = Some (x :: r).
+Proof.
+  intros H. destruct (gap_ok_split d g H) as [b1 [b2 GS]]. unfold parse_line. cbn [render_gap_row].
+  exact (parse_gap_row d (map Sep g) b1 b2 GS r x [] eq_refl eq_refl).
+Qed.
+
+Lemma others_blank_gap d g x y r :
+  others_blank d (render_gap_row g (x :: y :: r)) = true -> others_blank d (map Sep g) = true.
+Proof.
+  unfold others_blank. cbn [render_gap_row forallb flat_map]. cbn [andb].
+  rewrite !forallb_app. intros O. apply andb_prop in O. destruct O as [O _].
+  apply andb_prop in O. destruct O as [O _]. exact O.
+Qed.
+
+Lemma count_sep_app d l1 l2 : count_sep d (l1 ++ l2) = (count_sep d l1 + count_sep d l2)%nat.
+Proof. induction l1 as [|[?|?] l1 IHl]; cbn [app count_sep]; rewrite ?IHl; lia. Qed.
+
+Lemma count_sep_gap_row d g x t :
+  count_sep d (render_gap_row g (x :: t)) = (length t * count_sep d (map Sep g))%nat.
+Proof.
+  cbn [render_gap_row count_sep]. induction t as [|z t IH]; [reflexivity|]. cbn [flat_map length].
+  rewrite !count_sep_app, IH. cbn [count_sep]. lia.
+Qed.
+
+(* with two or more columns, ONLY a separator that reads the gap accepts the line *)
+Theorem parse_gap_line_only d g x y r row :
+  parse_line d (render_gap_row g (x :: y :: r)) = Some row -> gap_ok d g = true.
+Proof.
+  intros H. destruct (parse_line_needs _ _ _ H) as [C O]. pose proof (parse_line_nums _ _ _ H) as N.
+  rewrite nums_gap_row in N. subst row. unfold gap_ok.
+  rewrite count_sep_gap_row in C. cbn [length] in C.
+  assert (C1 : count_sep d (map Sep g) = 1%nat) by nia.
+  rewrite C1. cbn [Nat.eqb andb]. eapply others_blank_gap. exact O.
+Qed.
+
+Lemma rows_gap d g t : gap_ok d g = true -> Forall (fun r => r <> []) t ->
+  all_some (map (parse_line d) (filter (fun l => negb (blank_line l)) (render_gap g t))) = Some t.
+Proof.
+  intros G. induction 1 as [|row t Hr Ht IH]; [reflexivity|]. destruct row as [|x r]; [congruence|].
+  unfold render_gap in *. cbn [map filter].
+  assert (K : negb (blank_line (render_gap_row g (x :: r))) = true) by reflexivity.
+  rewrite K. cbn [map all_some]. rewrite (parse_gap_line d g x r G), IH. reflexivity.
+Qed.
+
+(* the decision for regular texts: a rectangular table written with a gap is read back unchanged as soon as some
+   separator of the list reads the gap — whatever the order, whatever else is tried before *)
+Theorem detect_gap order g t d :
+  In d order -> gap_ok d g = true -> rectangular t = true -> detect order (render_gap g t) = Some t.
+Proof.
+  intros Hin G R. destruct (rectangular_rows t R) as [NE SL].
+  assert (T : try_parse d (render_gap g t) = Some t).
+  { unfold try_parse. rewrite (rows_gap d g t G NE), SL. reflexivity. }
+  destruct (detect order (render_gap g t)) as [t'|] eqn:D.
+  - rewrite (detect_numbers _ _ _ D). symmetry. f_equal. eapply try_parse_numbers. exact T.
+  - rewrite detect_none_iff in D. rewrite (D d Hin) in T. discriminate.
+Qed.
+
+(* ... and with two or more columns it is refused when no separator of the list reads the gap *)
+Theorem detect_gap_refused order g x y r t :
+  (forall d, In d order -> gap_ok d g = false) -> detect order (render_gap g ((x :: y :: r) :: t)) = None.
+Proof.
+  intros H. apply detect_none_iff. intros d Hin. unfold try_parse, render_gap. cbn [map filter].
+  assert (K : negb (blank_line (render_gap_row g (x :: y :: r))) = true) by reflexivity.
+  rewrite K. cbn [map all_some].
+  destruct (parse_line d (render_gap_row g (x :: y :: r))) as [row|] eqn:P; [|reflexivity].
+  apply parse_gap_line_only in P. rewrite (H d Hin) in P. discriminate.
+Qed.
